@@ -69,15 +69,14 @@ class Checker:
         if hasattr(f, "qualname"):
             self.analysed["functions"].add(f.qualname)
 
-    def bad(self, rule, f, what, construct, node=None, detail=None):
+    def bad(self, rule, f, what, construct, node=None, detail=None, key_func=None):
         """a violated obligation. ``construct`` identifies the offending code independent of
         position (normalised text of the expression / name of the instance)."""
-        fq = getattr(f, "qualname", f if isinstance(f, str) else None)
+        fq = key_func or getattr(f, "qualname", f if isinstance(f, str) else None)
         for o in self.obs:
             if o.status == "violated" and o.rule == rule and o.func == fq and norm(o.construct) == norm(construct):
                 return
-        self.obs.append(Ob(rule, self._site(f, node), what, "violated", detail, True, construct,
-                           getattr(f, "qualname", f if isinstance(f, str) else None)))
+        self.obs.append(Ob(rule, self._site(f, node), what, "violated", detail, True, construct, fq))
         if hasattr(f, "qualname"):
             self.analysed["functions"].add(f.qualname)
 
